@@ -160,7 +160,7 @@ func (h *Handler) Handle(down *layer4.Connection, _ layer4.Handler) error {
 	for {
 		// choose an available upstream
 		upstream := h.LoadBalancing.SelectionPolicy.Select(h.Upstreams, down)
-		verifEv("proxy.select", upstream, upstream != nil)
+		verifEv("proxy.select", h, upstream != nil)
 		if upstream == nil {
 			if proxyErr == nil {
 				proxyErr = fmt.Errorf("no upstreams available")
